@@ -71,7 +71,7 @@ package keeper
 // to the collector and is booked as net fees; the auction and the locked vault are removed.
 //@ pred mapMintV(vk, ctx, app, ep): vk.GetAppExtendedPairVaultMappingData(ctx, app, ep).0.TokenMintedAmount
 //@ func (k Keeper) CloseDutchAuction
-//@   property C02, C10
+//@   property C02, C10, C01
 //@   let A = dutchAuction
 //@   let lv = K("liquidation").GetLockedVault(ctx, dutchAuction.AppId, dutchAuction.LockedVaultId).0
 //@   let d = dutchAuction.InflowTokenCurrentAmount.Denom
@@ -85,6 +85,7 @@ package keeper
 //@   loop 0 invariant #supply-untouched: forall dd :: supply(dd) == old(supply(dd))
 //@   ensures [C02] #c02-burn-is-principal-retired: result == nil ==> supply(d) == old(supply(d)) - lv.AmountOut
 //@   ensures [C02] #c02-published-total-follows: result == nil && K("vault").GetAppExtendedPairVaultMappingData(ctx, epv.AppId, epv.Id).1 ==> mapMintV(K("vault"), ctx, epv.AppId, epv.Id) == old(mapMintV(K("vault"), ctx, epv.AppId, epv.Id)) - lv.AmountOut
+//@   ensures [C01] #c01-published-total-retires-principal-only: result == nil && K("vault").GetAppExtendedPairVaultMappingData(ctx, epv.AppId, epv.Id).1 ==> mapMintV(K("vault"), ctx, epv.AppId, epv.Id) == old(mapMintV(K("vault"), ctx, epv.AppId, epv.Id)) - lv.AmountOut
 //@   ensures [C10] #c10-proceeds-distributed: result == nil && A.InflowTokenTargetAmount.Amount >= lv.AmountOut ==> bal(am, d) == old(bal(am, d)) - A.InflowTokenTargetAmount.Amount && bal(cm, d) == old(bal(cm, d)) + (A.InflowTokenTargetAmount.Amount - lv.AmountOut)
 
 // First-generation surplus auction close (C11): with a standing bid and no emergency shutdown the standing bidder - and
